@@ -1,7 +1,7 @@
 PROP = {
     "title": "XML -> Map -> XML -> Map is a fixed point; re-encoded XML is well formed",
     "run_modules": ["RunXml2"],
-    "n": {"quick": 650, "thorough": 20000},
+    "n": {"quick": 650, "thorough": 8000},
     "shards": {"quick": 16, "thorough": 64},
     "level": "proof",
     "technique": "Coq models of xmlToMapParser/cast (Model/XmlDec.v) and of Map.Xml / Map.XmlIndent (Model/XmlEnc.v) + tokenizer specification "
